@@ -422,7 +422,7 @@ def burst_after_drop(enc, drop_packets=1, calls=3):
         p.stop()
 
 
-def run_asym_session(role, asym, payloads, kw=None):
+def run_asym_session(role, asym, payloads, kw=None, raw_kw=None):
     """A session between a real endpoint (`role` = the side under test) and a
     raw peer that negotiates DIFFERENT algorithms per direction (asym: see
     rawpeer._RawMixin.asym).  The raw peer authenticates with "none", opens
@@ -455,7 +455,7 @@ def run_asym_session(role, asym, payloads, kw=None):
         res['acc'] = await asyncssh.listen('127.0.0.1', 2222, **skw)
         res['raw'] = await rawpeer.raw_connect('127.0.0.1', 2222, asym=asym,
                                                compression_algs=allcmp,
-                                               **(kw or {}))
+                                               **(raw_kw or {}), **(kw or {}))
 
     def script_client():
         raw = res['raw']
@@ -516,7 +516,7 @@ def run_asym_session(role, asym, payloads, kw=None):
         res['acc'] = await rawpeer.raw_listen(
             '127.0.0.1', 2222, on_conn, asym=asym,
             server_host_keys=[hostkey()], compression_algs=allcmp,
-            **(kw or {}))
+            **(raw_kw or {}), **(kw or {}))
         ckw = dict(known_hosts=None, config=None, client_keys=None,
                    username='u', client_factory=_Cli,
                    compression_algs=allcmp)
